@@ -32,7 +32,7 @@ REQUIRED = [
     "KV.C16.codeSort_refines", "KV.C16.codeSort_sorted_perm", "KV.C16.sizedSort_perm_sorted",
     "KV.C16.counting_suffix", "KV.C16.counting_prefix", "KV.C16.counting_context", "KV.C16.codeSort_ok",
     "KV.C16.codeSort_correct", "KV.C16.bufferedEntry_refines", "KV.C16.merge_ret_sufficient",
-    "KV.C16.mergePhase",
+    "KV.C16.mergePhase", "KV.C16.fileEntry_refines", "KV.C16.codeSort_eq_spec", "KV.C16.codeSort_combine_eq_spec",
 ]
 
 BOOST = ["-Wl,--no-as-needed", "-lboost_thread", "-lboost_system"]
